@@ -70,6 +70,7 @@ func (def *mapAsList) getByKey(r node.ListRequest) (reflect.Value, error) {
 		return empty, fmt.Errorf("no key specified for %s", r.Path.String())
 	}
 	keyVal := reflect.ValueOf(r.Key[0].Value())
+	keyVal = mapKeyValue(def.src, keyVal)
 	found := def.src.MapIndex(keyVal)
 	if !found.IsValid() {
 		return empty, nil
@@ -82,6 +83,7 @@ func (def *mapAsList) deleteByKey(r node.ListRequest) error {
 		return fmt.Errorf("no key specified for %s", r.Path.String())
 	}
 	keyVal := reflect.ValueOf(r.Key[0].Value())
+	keyVal = mapKeyValue(def.src, keyVal)
 	def.src.SetMapIndex(keyVal, reflect.ValueOf(nil))
 	return nil
 }
@@ -108,6 +110,7 @@ func (def *mapAsList) newListItem(r node.ListRequest) (reflect.Value, error) {
 		return empty, err
 	}
 	keyVal := reflect.ValueOf(r.Key[0].Value())
+	keyVal = mapKeyValue(def.src, keyVal)
 	def.src.SetMapIndex(keyVal, itemVal)
 	return itemVal, nil
 }
